@@ -37,8 +37,17 @@
   ROUND (`C18_orphans_killed_every_round`): the KILL of an orphan listed at a quiet point is newer than the
   latest RECONCILE call of the current life. Nothing in the model obliges a task to die when KILLed, so the
   histories include orphans that outlive any number of KILLs and reconnections.
+
+  SEVERAL SUBSCRIPTIONS IN ONE LIFE, INCOMPLETE ANSWERS (last section but one): Model/Resubscribe.lean layers
+  `hide t | unhide t | mute | unmute` over these steps (what the master can report in answer to a RECONCILE becomes
+  state; `C18_resub_conservative`) and records the SUBSCRIBE/SUBSCRIBED pairs. There the obligation is attached to
+  the SUBSCRIPTION (`orphansKilledEachSubscription`: the KILL is newer than the latest SUBSCRIBE of the life), the
+  completeness assumption shrinks to `noLateOrphans` (nothing the master reports at a quiet point was left out of
+  the CURRENT subscription's answer — which the code does not guarantee: finding `late_orphan_never_reconciled`), and
+  identity is stated on presented AND assigned ids (`identityKept`, `oneFramework`).
 -/
 import ControlModel.Proofs.Reconcile
+import ControlModel.Proofs.Resubscribe
 
 open Reconcile Spec.C18
 
@@ -59,9 +68,12 @@ theorem C18_kill_guard_is_code :
 theorem C18_kill_states_is_code :
     Gen.C18.killStates.map stateOfName = unguardedCfg.killStates.map some := by decide
 
-/-- A RECONCILE call — implicit: no task list — is issued on SUBSCRIBED, after TrackSubscription stored the id. -/
+/-- A RECONCILE call — implicit: no task list — is issued on SUBSCRIBED, after TrackSubscription stored the id,
+    and on EVERY SUBSCRIBED: the handler is straight-line code and nothing next to it outlives one event (no
+    "first subscription only", no rate limit) — the model's `read` of a SUBSCRIBED always reconciles. -/
 theorem C18_reconcile_on_subscribed_is_code :
-    (Gen.C18.reconcileOnSubscribed && Gen.C18.reconcileIsImplicit && Gen.C18.trackSubscriptionBeforeReconcile) = true := by decide
+    (Gen.C18.reconcileOnSubscribed && Gen.C18.reconcileIsImplicit && Gen.C18.trackSubscriptionBeforeReconcile &&
+     Gen.C18.reconcileOnEverySubscribed) = true := by decide
 
 /-- The framework-id store is seeded from, and written back to, the runtime entry aliecs/mesos_fid, it is the
     store SUBSCRIBE and every other call take the id from, the failover timeout is set (so SUBSCRIBE carries
@@ -375,6 +387,204 @@ theorem C18_updates_never_kill (c : Cfg) (hg : c.reasonGuard = true) (W : World)
   run_preserves (P := fun s => updatesNeverKill s.log = true) c W
     (fun s x hs => updatesNeverKill_step c W hg s x hs) h _ (by cases kv0 <;> simp [init, updatesNeverKill])
 
+/-! ## several subscriptions in one life, reconciliation answers that leave tasks out (Model/Resubscribe.lean) -/
+
+/-- The layered model is a conservative extension: a history without `hide`/`unhide`/`mute`/`unmute` is a
+    history of Model/Reconcile.lean against a master that answers completely — every theorem above is a theorem
+    about the layered model too. -/
+theorem C18_resub_conservative (c : Cfg) (kv0 : Option Nat) (h : List Step) :
+    (rrun c (h.map .base) (rinit kv0)).base = run c World.complete h (init kv0) :=
+  rrun_plain c h (rinit kv0) rfl rfl
+
+/-- **Orphans killed after EVERY subscription** (old model, complete answers): at every quiet point the KILL of
+    an orphan the master holds alive is NEWER than the latest SUBSCRIBE of the current life — a re-subscription
+    starts the obligation afresh, whatever earlier subscriptions of the life did. For ALL histories. -/
+theorem C18_orphans_killed_every_subscription (c : Cfg) (W : World) (hc : Sound c) (hW : ∀ n t, W.answers n t = true)
+    (kv0 : Option Nat) (h : List Step) (hh : h.all (stepOk c) = true) :
+    orphansKilledEachSubscription (run c W h (init kv0)).log = true := by
+  rw [world_complete_of W hW, ← C18_resub_conservative c kv0 h]
+  exact (orphanSpec_rrun c hc _ (by simpa [List.all_map, Function.comp_def, rstepOk] using hh) _ (rinv_init c kv0)
+    (noLate_plain c hc.recon h _ rfl rfl rfl) (orphanSpec_init kv0)).1
+
+/-- The per-subscription predicate implies the per-task one, on every log (also on the log of the real core). -/
+theorem C18_every_subscription_implies_once (log : List Out) (h : orphansKilledEachSubscription log = true) :
+    orphansKilled log = true :=
+  orphansKilled_of_eachSubscription log h
+
+/-- FULL-STRENGTH statement (kept visible): against a master whose reconciliation answers may leave tasks out
+    and whose scheduler API may lose a RECONCILE — at any point, any number of times, any number of restarts and
+    reconnections — at every quiet point every task of an earlier life that the master REPORTS alive has received
+    a KILL from the current life since the current life last subscribed. -/
+def C18_visible_orphans_killed_full (c : Cfg) : Prop :=
+  ∀ (kv0 : Option Nat) (h : List RStep), h.all (rstepOk c) = true →
+    orphansKilledEachSubscription (rrun c h (rinit kv0)).base.log = true
+
+/-- An orphan whose agent is away when life 2 reconciles (so the answer leaves it out), and back afterwards:
+    reported alive at the next quiet point — and the core, which asks on SUBSCRIBED only, never asks again. -/
+def C18_witness_late : List RStep :=
+  [.base .coreStart, .base .subscribe, .base .read, .base (.launch 0 0), .base (.status 0 .running), .base .read, .base .handle,
+   .hide 0, .base .coreKill, .base .coreStart, .base .subscribe, .base .read, .base .snapshot,
+   .unhide 0, .base .snapshot]
+
+/-- **Finding `late_orphan_never_reconciled`.** The code violates the full statement: it reconciles once per
+    SUBSCRIBED event and at no other time (no timer, no retry of a lost RECONCILE), so a task of a previous life
+    that the master could not report at that moment survives unowned until the connection happens to drop. -/
+theorem C18_finding_late_orphan_never_reconciled : ¬ C18_visible_orphans_killed_full guardedCfg := by
+  intro hfull
+  have := hfull none C18_witness_late (by decide)
+  revert this; decide
+
+/-- What the code does guarantee against such a master (`C18_visible_orphans_killed_partial`): as long as
+    whatever the master reports alive at a quiet point could already be reported when the core last subscribed
+    (`noLateOrphans`: no reported orphan is among the tasks the answer to the current subscription's RECONCILE
+    left out), every reported orphan has a KILL newer than the latest SUBSCRIBE (and than the latest RECONCILE:
+    the per-round predicate holds too). No hypothesis on EARLIER
+    subscriptions: their answers may have been incomplete or lost in any way — a task missed by the first answer
+    of the life (or of several lives) is killed when a later subscription's answer shows it. For ALL histories of
+    the layered model. -/
+theorem C18_visible_orphans_killed_partial (c : Cfg) (hc : Sound c) (kv0 : Option Nat) (h : List RStep)
+    (hh : h.all (rstepOk c) = true) (hno : noLateOrphans c h (rinit kv0) = true) :
+    orphansKilledEachSubscription (rrun c h (rinit kv0)).base.log = true ∧
+    orphansKilledEachRound (rrun c h (rinit kv0)).base.log = true :=
+  orphanSpec_rrun c hc h hh (rinit kv0) (rinv_init c kv0) hno (orphanSpec_init kv0)
+
+/-- The same on the state: in a quiescent state every task of an earlier life that is alive (killable) is either
+    KILLed since the latest SUBSCRIBE of the current life, or was left out of the answer to the current
+    subscription's RECONCILE — with NO hypothesis about late orphans. -/
+theorem C18_orphan_killed_or_missed (c : Cfg) (hc : Sound c) (kv0 : Option Nat) (h : List RStep)
+    (hh : h.all (rstepOk c) = true) :
+    let r := rrun c h (rinit kv0)
+    r.base.quiescent = true →
+    ∀ t ∈ r.base.tasks, t.life < r.base.life → c.killable t.state = true →
+      (∃ owned, Out.kill r.base.life t.id (.update .recon) owned ∈ sinceSubscribe r.base.life r.base.log) ∨
+      t.id ∈ r.missed := by
+  intro r hq t ht hlt hk
+  have i := rinv_rrun c hc h hh _ (rinv_init c kv0)
+  simp only [St.quiescent, St.connected, Bool.and_eq_true, List.isEmpty_iff, Option.isNone_iff_eq_none] at hq
+  obtain ⟨⟨⟨hal, hst, hhel⟩, hqu⟩, hin⟩ := hq
+  rcases i.v hal hst t ht hlt hk with h1 | ⟨st, _, h2 | h2⟩ | h3 | h4
+  · rw [hhel] at h1; cases h1
+  · rw [hqu] at h2; cases h2
+  · rw [hin] at h2; cases h2
+  · obtain ⟨o, ho, _⟩ := h3
+    exact Or.inl ⟨o, ho⟩
+  · exact Or.inr h4
+
+/-- The class the property needs and a core that reconciles on its first SUBSCRIBED only gets wrong: task 0's
+    agent is away when life 2 subscribes and reconciles, it registers again while the stream is down, life 2
+    re-subscribes and reconciles AGAIN, the master reports the task, the core KILLs it. -/
+def C18_witness_missed : List RStep :=
+  [.base .coreStart, .base .subscribe, .base .read, .base (.launch 0 0), .base (.status 0 .running), .base .read, .base .handle,
+   .hide 0, .base .coreKill, .base .coreStart, .base .subscribe, .base .read, .base .snapshot,
+   .unhide 0, .base .drop, .base .subscribe, .base .read, .base .read, .base .handle, .base .snapshot]
+
+/-- What the model's core (= the code) does on it: the first snapshot of life 2 reports no orphan (the master
+    cannot see task 0), the last one reports it, with a KILL of life 2 that is newer than the second SUBSCRIBE;
+    there are two RECONCILE calls of life 2, one per SUBSCRIBED. -/
+theorem C18_missed_orphan_killed_after_resubscription :
+    let r := rrun guardedCfg C18_witness_missed (rinit none)
+    C18_witness_missed.all (rstepOk guardedCfg) = true ∧ noLateOrphans guardedCfg C18_witness_missed (rinit none) = true ∧
+    r.base.log.head? = some (.snap 2 [0]) ∧ Out.snap 2 [] ∈ r.base.log ∧
+    (sinceSubscribe 2 r.base.log).any (isReconKill 2 0) = true ∧
+    (r.base.log.filter (· == .reconcile 2)).length = 2 ∧ allR r.base.log r.subs = true := by
+  decide
+
+/-- "Reconcile after the first SUBSCRIBED of a life" is NOT what the property asks. The log of a core that
+    behaves like the model except that it sends no RECONCILE (hence no KILL) after a RE-subscription — here: the
+    model's log on the survivor history `C18_witness_survivor` with the second RECONCILE and the second KILL of
+    life 2 removed — satisfies the per-task predicate and even the per-round one (its latest RECONCILE is the
+    first one, and the KILL that followed it is there) but not the per-subscription one: the orphan is reported
+    alive under the second subscription and nothing was done about it. This is why `Spec.C18.all` contains
+    `orphansKilledEachSubscription`. -/
+theorem C18_reconcile_once_per_life_is_not_enough :
+    let log := run unguardedCfg World.complete C18_witness_survivor (init none) |>.log
+    let once := (log.eraseP (isReconKill 2 0)).eraseP (· == .reconcile 2)   -- newest first: the SECOND round
+    orphansKilled once = true ∧ orphansKilledEachRound once = true ∧ orphansKilledEachSubscription once = false ∧
+    orphansKilledEachSubscription log = true := by
+  decide
+
+/-- **Identity kept over every reconnection.** Every SUBSCRIBE made after a SUBSCRIBED that the core accepted
+    presents the framework id the master assigned then — in the SAME life after any number of dropped streams
+    (a core in its first life, nothing persisted when it started, included: what it presents is the id it was
+    given on its first subscription), and in every later life — and all accepted subscriptions are for one and
+    the same framework id; in the log: every SUBSCRIBE after a `persist` carries that id, which never changes.
+    For ALL histories of the layered model, any initial content of `mesos_fid`. -/
+theorem C18_identity_kept_over_reconnections (c : Cfg) (hseed : c.seedFid = true) (hpers : c.persistFid = true)
+    (hfo : c.failover = true) (kv0 : Option Nat) (h : List RStep) :
+    identityKept (rrun c h (rinit kv0)).subs = true ∧ oneFramework (rrun c h (rinit kv0)).subs = true ∧
+    sameIdentity (rrun c h (rinit kv0)).base.log = true ∧ persistedOnce (rrun c h (rinit kv0)).base.log = true := by
+  have i := invS_rrun c hseed hpers hfo h _ (invS_init kv0)
+  have a := rrun_preserves (P := fun r => InvA r.base) c (fun r x hr => invA_rstep c hseed hfo r x hr) h (rinit kv0) (invA_init kv0)
+  exact ⟨i.kept, i.one, a.same, a.once⟩
+
+/-- The same on the state: a live core that has ever had a subscription accepted holds the id assigned then in
+    memory — the id its NEXT SUBSCRIBE presents (`step … .subscribe` carries `fidMem`) — and the runtime entry
+    holds it too. -/
+theorem C18_resubscribe_presents_assigned_id (c : Cfg) (hseed : c.seedFid = true) (hpers : c.persistFid = true)
+    (hfo : c.failover = true) (kv0 : Option Nat) (h : List RStep) :
+    let r := rrun c h (rinit kv0)
+    ∀ y ∈ r.subs, y.accepted = true →
+      r.base.kv = some y.assigned ∧ (r.base.alive = true → r.base.fidMem = some y.assigned) := by
+  intro r y hy hacc
+  have i := invS_rrun c hseed hpers hfo h _ (invS_init kv0)
+  have hk := i.acc y hy hacc
+  exact ⟨hk, fun ha => by rw [i.mem ha]; exact hk⟩
+
+/-- **One framework.** After any history — restarts, reconnections, incomplete answers — every task the core
+    ever launched is a task of the framework the core is subscribed as NOW: the tasks of its live environments
+    are still its own after a reconnection (`C18_roster_complete`: they are in the roster; here: the master
+    files them under the id of the connected stream). -/
+theorem C18_one_framework (c : Cfg) (hc : Sound c) (kv0 : Option Nat) (h : List RStep) (hh : h.all (rstepOk c) = true) :
+    let r := rrun c h (rinit kv0)
+    r.base.alive = true → r.base.connected = true → ∀ t ∈ r.base.tasks, r.base.stream = some t.fid := by
+  intro r ha hcn t ht
+  have i : RInv c r := rinv_rrun c hc h hh _ (rinv_init c kv0)
+  simp only [St.connected, Bool.and_eq_true, Option.isSome_iff_exists, Option.isNone_iff_eq_none] at hcn
+  obtain ⟨⟨f, hf⟩, hhel⟩ := hcn
+  have h1 := i.b.conn ha f hf (by rw [hhel]; rfl)
+  have h2 := i.b.mem ha
+  have h3 := i.b.fid t ht
+  rw [hf, ← h1, h2, h3]
+
+/-- **Roster tasks are never killed by a reconciliation answer** — over ALL histories of the layered model: any
+    number of reconnections at any point, answers that leave out or bring back any task at any time (a task of a
+    live environment left out of one answer and reported by the next is spared both times). -/
+theorem C18_roster_tasks_never_killed_over_reconnections (c : Cfg) (hg : c.rosterGuard = true)
+    (hrw : c.snapshotRewrite = false) (kv0 : Option Nat) (h : List RStep) :
+    ownedSpared (rrun c h (rinit kv0)).base.log = true :=
+  (rrun_preserves (P := fun r => InvR r.base ∧ ownedSpared r.base.log = true) c
+    (fun r x hr => ⟨invR_rstep c hrw r x hr.1,
+      rstep_lift (fun s => ownedSpared s.log = true) c r x
+        (fun W y _ => ownedSpared_step_guarded c W hg r.base y hr.1 hr.2)
+        (fun os => by rw [ownedSpared_snap]; exact hr.2) hr.2⟩) h _
+    ⟨invR_init kv0, by cases kv0 <;> simp [rinit, init, ownedSpared]⟩).2
+
+/-- Ordinary status updates never cause a KILL — layered model, ALL histories. -/
+theorem C18_updates_never_kill_over_reconnections (c : Cfg) (hg : c.reasonGuard = true) (kv0 : Option Nat) (h : List RStep) :
+    updatesNeverKill (rrun c h (rinit kv0)).base.log = true :=
+  rrun_preserves (P := fun r => updatesNeverKill r.base.log = true) c
+    (fun r x hr => rstep_lift (fun s => updatesNeverKill s.log = true) c r x
+      (fun W y _ => updatesNeverKill_step c W hg r.base y hr)
+      (fun os => by rw [updatesNeverKill_snap]; exact hr) hr) h _
+    (by cases kv0 <;> simp [rinit, init, updatesNeverKill])
+
+/-- Everything, at the configuration read off the code on this run, for the layered model: the whole Spec on the
+    log AND on the SUBSCRIBE/SUBSCRIBED pairs, for ALL histories with incomplete answers that have no late
+    orphan (and, should the roster test be missing, no reconnection while owning — not expressible here, so the
+    roster test is a hypothesis). -/
+theorem C18_code_meets_spec_over_reconnections (kv0 : Option Nat) (h : List RStep)
+    (hh : h.all (rstepOk codeCfg) = true) (hno : noLateOrphans codeCfg h (rinit kv0) = true)
+    (hg : codeCfg.rosterGuard = true) :
+    allR (rrun codeCfg h (rinit kv0)).base.log (rrun codeCfg h (rinit kv0)).subs = true := by
+  have hc := C18_cfg_is_code
+  have hs := C18_cfg_sound codeCfg hc
+  have h1 := C18_identity_kept_over_reconnections codeCfg hs.seed hs.persist hs.failover kv0 h
+  have h2 := C18_visible_orphans_killed_partial codeCfg hs kv0 h hh hno
+  have h3 := C18_roster_tasks_never_killed_over_reconnections codeCfg hg hs.norewrite kv0 h
+  have h4 := C18_updates_never_kill_over_reconnections codeCfg (by rcases hc with e | e <;> rw [e] <;> rfl) kv0 h
+  have h5 := orphansKilled_of_eachSubscription _ h2.1
+  simp [allR, Spec.C18.all, h1.1, h1.2.1, h1.2.2.1, h1.2.2.2, h2.1, h2.2, h3, h4, h5]
+
 /-! ## the code as it is NOW -/
 
 /-- Everything above, instantiated at the configuration read off the code on this run: same identity,
@@ -389,12 +599,14 @@ theorem C18_code_meets_spec (W : World) (hW : ∀ n t, W.answers n t = true) (kv
   have h1 := C18_same_identity codeCfg W hs.seed hs.failover kv0 h
   have h2 := C18_orphans_killed codeCfg W hs hW kv0 h hh
   have h2' := C18_orphans_killed_every_round codeCfg W hs hW kv0 h hh
+  have h2'' := C18_orphans_killed_every_subscription codeCfg W hs hW kv0 h hh
   have h4 := C18_updates_never_kill codeCfg (by rcases hc with e | e <;> rw [e] <;> rfl) W kv0 h
   have h3 : ownedSpared (run codeCfg W h (init kv0)).log = true := by
     rcases hno with hg | hno
     · exact C18_owned_spared_fixed codeCfg hg hs.norewrite W kv0 h
     · exact C18_owned_spared_partial codeCfg W hs.seed hs.failover hs.norewrite kv0 h hno
-  simp [Spec.C18.all, h1.1, h1.2, h2, h2', h3, h4]
+  simp [Spec.C18.all, h1.1, h1.2, h2, h2', h2'', h3, h4]
+
 
 /-! ## non-vacuity -/
 
@@ -426,3 +638,34 @@ example : C18_witness_overlap.all (stepOk guardedCfg) = true ∧
 example : C18_witness_reconnect.all (stepOk unguardedCfg) = true ∧
     noReconnWhileOwning unguardedCfg World.complete C18_witness_reconnect (init none) = false ∧
     ownedSpared (run guardedCfg World.complete C18_witness_reconnect (init none)).log = true := by decide
+
+/-- A core in its FIRST life (nothing persisted) with a live environment, the stream dropped and re-established:
+    the second SUBSCRIBE presents the id the first SUBSCRIBED assigned, the master keeps it, the task of the live
+    environment is still held, in the roster, under the framework of the connected stream, and was never KILLed;
+    the whole Spec — log and SUBSCRIBE/SUBSCRIBED pairs — holds. -/
+example :
+    let h : List RStep := [.base .coreStart, .base .subscribe, .base .read, .base (.launch 0 0), .base (.status 0 .running),
+      .base .read, .base .handle, .base .snapshot, .base .drop, .base .subscribe, .base .read, .base .read, .base .handle, .base .snapshot]
+    let r := rrun guardedCfg h (rinit none)
+    h.all (rstepOk guardedCfg) = true ∧ noLateOrphans guardedCfg h (rinit none) = true ∧
+    r.subs = [{ life := 1, carry := some 0, assigned := 0, accepted := true }, { life := 1, carry := none, assigned := 0, accepted := true }] ∧
+    (0, 0) ∈ r.base.held ∧ lockedIn r.base.roster 0 = true ∧ r.base.stream = some 0 ∧
+    r.base.tasks.all (fun t => t.fid == 0) = true ∧
+    r.base.log.all (fun o => match o with | .kill _ _ _ _ => false | _ => true) = true ∧
+    allR r.base.log r.subs = true := by decide
+
+/-- … and `identityKept` is not vacuous: a re-subscription that presents NO id after an accepted one (the master
+    then registers a new framework, id 1) is rejected, and so is one framework after another being accepted. -/
+example :
+    identityKept [{ life := 1, carry := none, assigned := 1, accepted := false }, { life := 1, carry := none, assigned := 0, accepted := true }] = false ∧
+    oneFramework [{ life := 1, carry := none, assigned := 1, accepted := true }, { life := 1, carry := none, assigned := 0, accepted := true }] = false := by
+  decide
+
+/-- The witness of the finding is a legal history (listed states only); it violates exactly `noLateOrphans`, at
+    its last step; the rest of the Spec holds of it. -/
+example : C18_witness_late.all (rstepOk guardedCfg) = true ∧ noLateOrphans guardedCfg C18_witness_late (rinit none) = false ∧
+    noLateOrphans guardedCfg C18_witness_late.dropLast (rinit none) = true ∧
+    (let r := rrun guardedCfg C18_witness_late (rinit none)
+     r.base.log.head? = some (.snap 2 [0]) ∧ r.missed = [0] ∧ r.hidden = [] ∧
+     sameIdentity r.base.log = true ∧ ownedSpared r.base.log = true ∧ identityKept r.subs = true ∧ oneFramework r.subs = true ∧
+     orphansKilledEachSubscription r.base.log = false) := by decide
